@@ -38,6 +38,7 @@ type Opts struct {
 	StringKeysOnly bool // map keys are always "k1", "k2", ... (field names of struct-shaped templates)
 	MarkerBias     bool // markers and references three times as often
 	RecursiveRefs  bool // a marked container may be referenced from inside itself
+	ForwardRefs    bool // references may precede their marker (resolved before the top-level container ends)
 	NoNull     bool
 	ASCIIMedia bool // CTE cannot carry a non-ASCII media type (a round-trip matter, not ours)
 	Budget     int // rough cap on the number of events
@@ -62,6 +63,7 @@ func DrawOpts(t *tape.Tape) Opts {
 	o.Times = t.Bool("o-times")
 	o.Chunked = t.Bool("o-chunked")
 	o.TopContainer = t.Chance("o-topcontainer", 3, 4)
+	o.ForwardRefs = o.TopContainer && t.Chance("o-forwardrefs", 1, 3)
 	return o
 }
 
@@ -78,6 +80,7 @@ type sgen struct {
 	markCtr int
 	marks   []string // ids of completed marked objects (non-keyable-safe refs only as values)
 	pendingMark string
+	forward     []string // ids referenced before their marker has been emitted
 	recs    []recType
 	count   int
 }
@@ -180,9 +183,21 @@ func (g *sgen) value(depth int) {
 			roll = 1 + roll%2 // markers and references three times as often
 		}
 		switch roll {
+		case 3:
+			// forward reference: the marker it names is emitted later
+			if g.o.ForwardRefs && len(g.forward) < 2 {
+				g.markCtr++
+				id := fmt.Sprintf("f%d", g.markCtr)
+				g.forward = append(g.forward, id)
+				g.emit(rec.Ev{K: rec.KReferenceLocal, S: []byte(id)})
+				return
+			}
 		case 1:
 			g.markCtr++
 			id := fmt.Sprintf("m%d", g.markCtr)
+			if len(g.forward) > 0 && g.t.Bool("resolve-forward") {
+				id, g.forward = g.forward[0], g.forward[1:]
+			}
 			g.emit(rec.Ev{K: rec.KMarker, S: []byte(id)})
 			if g.o.RecursiveRefs {
 				// the marker becomes referable as soon as its container opens:
@@ -347,6 +362,14 @@ func (g *sgen) list(depth int) {
 	for i := 0; i < n; i++ {
 		g.value(depth + 1)
 	}
+	if depth == 0 {
+		// resolve what is still referenced but not yet marked
+		for _, id := range g.forward {
+			g.emit(rec.Ev{K: rec.KMarker, S: []byte(id)})
+			g.emit(rec.Ev{K: rec.KTrue})
+		}
+		g.forward = nil
+	}
 	g.noise()
 	g.emit(rec.Ev{K: rec.KEndContainer})
 }
@@ -359,6 +382,14 @@ func (g *sgen) mapv(depth int) {
 		g.noise()
 		g.key()
 		g.value(depth + 1)
+	}
+	if depth == 0 {
+		for _, id := range g.forward {
+			g.key()
+			g.emit(rec.Ev{K: rec.KMarker, S: []byte(id)})
+			g.emit(rec.Ev{K: rec.KTrue})
+		}
+		g.forward = nil
 	}
 	g.emit(rec.Ev{K: rec.KEndContainer})
 }
